@@ -14,6 +14,7 @@ Print Assumptions C16_read_cross_limit.
 Theorem C16_read1_at_limit : forall R (o : rops R) (b : Bounded R), b_index b = b_size b ->
   r_read1 (bounded_rops o) b = Err EReadLimit b.
 Proof. intros R o b. apply bounded_read1_cross. Qed.
+Print Assumptions C16_read1_at_limit.
 
 Theorem C16_read_within : forall R (o : rops R) (b : Bounded R) n, wfb b -> n <= b_size b - b_index b ->
   r_readn (bounded_rops o) n b =
@@ -55,6 +56,7 @@ Theorem C16_write_within : forall W (o : wops W) (b : Bounded W) bs, wfb b -> nl
     | Err e x => Err e (x, b_size b, b_index b)
     end.
 Proof. intros W o b bs. apply bounded_write_within. Qed.
+Print Assumptions C16_write_within.
 
 Theorem C16_write_invariant : forall W (o : wops W) (c : wcall) (b : Bounded W),
   wfb b -> wfb (snd (run_wcall (bounded_wops o) c b)).
